@@ -261,7 +261,9 @@ def main(tier):
         judge(ex, rec['history'], res)
         print('REPLAY: %s' % ('the table model rejects this history' if rejected else 'history is accepted by the table model on the current tree'))
         return 1 if rejected else 0
-    h = make_harness()
+    h, rc_ = harness_or_violation('C13', tier, make_harness)
+    if h is None:
+        return rc_
     ex = Explorer('C13', tier, h, 'desc', 'c13.py')
     ex.deadline = time.time() + (200 if tier == 'quick' else 1500)
     # which of the calls wasi.c leaves unimplemented: they answer NOSYS on a live descriptor and are outside the alphabet
